@@ -3,6 +3,9 @@ package emu
 import (
 	"github.com/sarchlab/akita/v4/mem/vm"
 	"github.com/sarchlab/mgpusim/v4/amd/insts"
+	"github.com/sarchlab/mgpusim/v4/amd/kernels"
+	"github.com/sarchlab/mgpusim/v4/amd/protocol"
+	"github.com/sarchlab/mgpusim/v4/zzverif/simstub"
 )
 
 // ZzvNewWf (harness helper for differential checks written in other
@@ -12,4 +15,67 @@ func ZzvNewWf(inst *insts.Inst, pid vm.PID) *Wavefront {
 	wf.inst = inst
 	wf.pid = pid
 	return wf
+}
+
+// ---- C01 slice: one work-group of a real kernel on the emulator ----
+
+// ZzvMem is a flat little memory (code, packet, kernarg, buffers).
+type ZzvMem struct{ B []byte }
+
+func (m *ZzvMem) Read(pid vm.PID, a, n uint64) []byte {
+	out := make([]byte, n)
+	if a < uint64(len(m.B)) {
+		copy(out, m.B[a:])
+	}
+	return out
+}
+func (m *ZzvMem) Write(pid vm.PID, a uint64, d []byte) { copy(m.B[a:], d) }
+
+func (m *ZzvMem) Put32(a uint64, v uint32) {
+	m.B[a], m.B[a+1], m.B[a+2], m.B[a+3] = byte(v), byte(v>>8), byte(v>>16), byte(v>>24)
+}
+func (m *ZzvMem) Put64(a uint64, v uint64) { m.Put32(a, uint32(v)); m.Put32(a+4, uint32(v>>32)) }
+func (m *ZzvMem) Get32(a uint64) uint32 {
+	return uint32(m.B[a]) | uint32(m.B[a+1])<<8 | uint32(m.B[a+2])<<16 | uint32(m.B[a+3])<<24
+}
+
+const (
+	ZzvPacketAddr  = 0x100
+	ZzvKernargAddr = 0x200
+	ZzvCodeAddr    = 0x1000
+)
+
+// ZzvRunWG places the code object and the AQL packet in memory, builds the
+// work-group wgIndex of the grid with the real grid builder and runs it to
+// completion on a real emulation ComputeUnit (real decoder, the given ALU).
+func ZzvRunWG(alu ALU, mem *ZzvMem, co *insts.KernelCodeObject, grid [3]uint32, wg [3]uint16, wgIndex int, cdna3 bool, ldsBytes ...uint32) {
+	copy(mem.B[ZzvCodeAddr:], co.Data)
+	pkt := &kernels.HsaKernelDispatchPacket{WorkgroupSizeX: wg[0], WorkgroupSizeY: wg[1], WorkgroupSizeZ: wg[2],
+		GridSizeX: grid[0], GridSizeY: grid[1], GridSizeZ: grid[2], GroupSegmentSize: co.GroupSegmentByteSize,
+		KernelObject: ZzvCodeAddr, KernargAddress: ZzvKernargAddr}
+	for _, n := range ldsBytes {
+		pkt.GroupSegmentSize += n // dynamic LDS (LocalPtr kernel arguments)
+	}
+	// the packet as the driver copies it to device memory
+	p := uint64(ZzvPacketAddr)
+	for i, v := range []uint16{pkt.Header, pkt.Setup, wg[0], wg[1], wg[2], 0} {
+		mem.B[p+uint64(2*i)], mem.B[p+uint64(2*i)+1] = byte(v), byte(v>>8)
+	}
+	mem.Put32(p+12, grid[0])
+	mem.Put32(p+16, grid[1])
+	mem.Put32(p+20, grid[2])
+	mem.Put32(p+24, pkt.PrivateSegmentSize)
+	mem.Put32(p+28, pkt.GroupSegmentSize)
+	mem.Put64(p+32, pkt.KernelObject)
+	mem.Put64(p+40, pkt.KernargAddress)
+	gb := kernels.NewGridBuilder()
+	gb.SetKernel(kernels.KernelLaunchInfo{CodeObject: co, Packet: pkt, PacketAddr: ZzvPacketAddr})
+	gb.Skip(wgIndex)
+	raw := gb.NextWG()
+	dec := insts.NewDisassembler()
+	dec.IsCDNA3 = cdna3
+	cu := NewComputeUnit("CU", simstub.NewEngine(), dec, alu, mem)
+	req := protocol.MapWGReqBuilder{}.WithSrc("ACE").WithDst(cu.ToDispatcher.AsRemote()).WithPID(1).WithWG(raw).Build()
+	cu.wfs[raw] = make([]*Wavefront, 0, 64)
+	cu.runWG(req)
 }
